@@ -274,3 +274,61 @@ func c09CloseHandlerUnconditional(c *Ctx) {
 		}
 	}
 }
+
+// c09IdleListNotAliased (R3): the idle list is read under the pool mutex - all of it, not only its header.
+// Loading the slice field under the lock and walking the loaded value after the lock is released reads the *shared backing
+// array* unprotected: a client that comes back meanwhile (append under the lock) overwrites slots the walker has not read
+// yet. pool.Close then closes the wrong client and the overwritten one is neither idle, leased nor closed, while it still
+// counts against the limit. Clause: every element access (index, range, re-slice that is then indexed) through a value
+// loaded from the idle-list field happens with the pool mutex held; code that needs the clients after unlocking copies
+// them into storage of its own first.
+func c09IdleListNotAliased(c *Ctx) {
+	for _, p := range c09Pools {
+		n := 0
+		ord := ordCounter{}
+		for _, fn := range c.PkgFuncs(p.pkg) {
+			forEachInstr(fn, false, func(f *ssa.Function, in ssa.Instruction) {
+				u, ok := in.(*ssa.UnOp)
+				if !ok || u.Op != token.MUL {
+					return
+				}
+				tn, fld, _, okf := fieldAddrInfo(u.X)
+				if !okf || fld != p.idle || !strings.HasSuffix(tn, "."+p.poolType) {
+					return
+				}
+				// element accesses through this loaded slice value
+				var visit func(v ssa.Value, d int)
+				visit = func(v ssa.Value, d int) {
+					if d > 3 {
+						return
+					}
+					for _, r := range refs(v) {
+						switch x := r.(type) {
+						case *ssa.Slice:
+							visit(x, d+1)
+						case *ssa.Phi:
+							visit(x, d+1)
+						case *ssa.IndexAddr:
+							for _, rr := range refs(x) {
+								ri, isI := rr.(ssa.Instruction)
+								if !isI {
+									continue
+								}
+								if _, isDbg := rr.(*ssa.DebugRef); isDbg {
+									continue
+								}
+								n++
+								held := lockHeld(ri, p.mutex) || strings.HasSuffix(f.Name(), "Locked")
+								c.Check("C09.R3", ord.next(f, "element-access-"+p.idle), ri.Pos(), held, p.mutex+" held while an element of "+p.idle+" is accessed", "an element of "+p.poolType+"."+p.idle+" is accessed in "+f.Name()+" through a slice value that was loaded from the field, after "+p.mutex+" was released: the slice shares its backing array with the live idle list, so a client returned meanwhile overwrites a slot that has not been read yet - the wrong connection is closed and the overwritten one leaks")
+							}
+						}
+					}
+				}
+				visit(u, 0)
+			})
+		}
+		if n < 1 {
+			c.Unresolved("C09.R3", "element accesses of "+p.poolType+"."+p.idle)
+		}
+	}
+}
